@@ -2,7 +2,7 @@ import CifModel.Lemmas.LexDefectMulti
 import CifModel.Props.C12Scan
 /-
   Props/C12ScanMulti (group gW) — scanner level: SEVERAL defective places in one token, and an unpaired LEAD surrogate ANYWHERE
-  (not only in front of a closing quote), for data names, comments, whitespace-delimited values, text fields and quoted strings (CIF 2.0).
+  (not only in front of a closing quote), for data names, comments, whitespace-delimited values, text fields, quoted and triple-quoted strings (CIF 2.0).
 
   A token body is `s₀ e₁ s₁ … eₙ sₙ` (`Body`, Lemmas/LexDefectMulti): admissible runs `sᵢ` and events `eᵢ` between them — `Ev.of1`:
   one defective unit (`Defect1`: `C12_disallowed_char`, `C12_invalid_char_trail`), `Ev.lead l x`: an unpaired lead surrogate followed
@@ -145,6 +145,24 @@ theorem C12_several_defects_text (dia : Dialect) (body : Body) (sN ctx : Str) (l
     ∧ (∀ d r, body.treps line 1 = d ++ [r] →
         nextToken dia ⟨59 :: (body.inp ++ (sN ++ 10 :: 59 :: ctx)), line, 0, lt⟩ dieAll log = .abort r.code (r :: log)) := by
   have hs := multi_text (dia := dia) body sN ctx line log hb hN hfit hctx
+  refine ⟨stepTok_tok_nextToken (by rw [haw]; exact hs), fun d r hr => ?_⟩
+  rw [hr] at hs
+  rw [nextToken_cons, haw, die_step hs]
+
+/-- **C12_several_defects_triple** — a triple-quoted string (CIF 2.0) with any number of defective places, on any of its lines -/
+theorem C12_several_defects_triple (q : Nat) (hq : q = 34 ∨ q = 39) (body : Body) (sN ctx : Str) (line col : Nat) (lt : TokType)
+    (log : List Report) (haw : afterWsOf lt = true)
+    (hb : Body.tripleOk q line (col + 3) body) (hN : tripleOk .cif2 q sN = true)
+    (hfit : linesFit (body.tpos line (col + 3)).2 sN = true) (hctx : followOk .cif2 ctx = true) :
+    nextToken .cif2 ⟨q :: q :: q :: (body.inp ++ (sN ++ q :: q :: q :: ctx)), line, col, lt⟩ acceptAll log
+        = .ok (⟨.qvalue, body.out ++ sN, (posAfter (body.tpos line (col + 3)).1 (body.tpos line (col + 3)).2 sN).1,
+                  (posAfter (body.tpos line (col + 3)).1 (body.tpos line (col + 3)).2 sN).2 + 3⟩,
+               ⟨ctx, (posAfter (body.tpos line (col + 3)).1 (body.tpos line (col + 3)).2 sN).1,
+                  (posAfter (body.tpos line (col + 3)).1 (body.tpos line (col + 3)).2 sN).2 + 3, .qvalue⟩)
+            (body.treps line (col + 3) ++ log)
+    ∧ (∀ d r, body.treps line (col + 3) = d ++ [r] →
+        nextToken .cif2 ⟨q :: q :: q :: (body.inp ++ (sN ++ q :: q :: q :: ctx)), line, col, lt⟩ dieAll log = .abort r.code (r :: log)) := by
+  have hs := multi_triple q hq body sN ctx line col log hb hN hfit hctx
   refine ⟨stepTok_tok_nextToken (by rw [haw]; exact hs), fun d r hr => ?_⟩
   rw [hr] at hs
   rw [nextToken_cons, haw, die_step hs]
